@@ -26,7 +26,7 @@ CHECKS.update({
    text="Same value space as C04; every value the codec marshals is unmarshalled into a fresh variable with the same parameters and compared structurally.",
    ref="6 C04/C05", note=TB_E2),
  "C16": dict(engine=E2, technique="exhaustive enumeration of all short byte strings and of the one-mutation neighbourhood of all enumerated valid encodings, into every target type",
-   text="All byte strings up to 2 (quick) / 3 (thorough) bytes into every cdrType, primitive and sampled generated type; every truncation, bit flip and length-field substitution of every valid base/single-deviation encoding; each decode runs on a capacity-trimmed slice under recover; malformed classes must be reported as errors.",
+   text="All byte strings up to 2 (quick) / 3 (thorough) bytes into every cdrType, primitive and sampled generated type; every truncation, bit flip and length-field substitution of every valid base/single-deviation encoding; each decode runs on a capacity-trimmed slice under recover; malformed classes must be reported as errors. Every valid encoding is also decoded with octets appended: the declared length is the extent of the element, the value must not change.",
    ref="6 C16", note=TB_E2),
 })
 CHECKS.update({
@@ -59,7 +59,7 @@ CHECKS.update({
    ref="6 C10", note=TB_E1),
 })
 CHECKS.update({
- "C13": dict(engine=E2, technique="exhaustive enumeration of service lists x registered routes x token kinds against the real router, with a state-comparison oracle for 'no processing'; plus stateless preemption-bounded schedule exploration (statement-level scheduling points in the authorisation code) of an authenticated and an unauthenticated request in flight together (and of two requests with the same invalid token); plus the real NRF registration run against an intercepted NRF for every shape of the NRF's OAuth2 declaration and of the configured NRF certificate, followed by a probe of every route",
+ "C13": dict(engine=E2, technique="exhaustive enumeration of service lists x registered routes x token kinds against the real router, with a state-comparison oracle for 'no processing'; plus stateless preemption-bounded schedule exploration (statement-level scheduling points in the authorisation code) of an authenticated and an unauthenticated request in flight together (and of two requests with the same invalid token); plus the real NRF registration run against an intercepted NRF for every shape of the NRF's OAuth2 declaration (answered 201 or 200) and of the configured NRF certificate, followed by a probe of every route",
    text="For each of the 16 ordered lists of distinct service names the router is built by the real NewServer; every (method, path) reported by Engine.Routes() is probed with 11 kinds of missing/malformed/wrongly signed tokens (twice each) against a world holding a live session: the answer must be 401 and balances, reservations, rating modes, records, database reads/writes, Diameter dials and notifications must be unchanged; a control probe with a valid NRF-signed token must not be 401.",
    ref="6 C13", note=TB_E1),
 })
